@@ -12,7 +12,7 @@
    [tstate -> res (A * tstate)].  Loops are fuelled; the fuel of a loop is the
    number of characters still to be read plus two ([t_fuel]).  No proofs. *)
 From Coq Require Import String List NArith ZArith Bool Ascii.
-From IonV Require Import Base.Wire.
+From IonV Require Import Base.Wire Base.Utf8.
 Import ListNotations.
 Open Scope Z_scope.
 
@@ -303,14 +303,30 @@ Definition simple_escape (c : Z) : option Z :=
   else if c =? 114 then Some 13 else if c =? 118 then Some 11 else if c =? 63 then Some 63
   else if c =? 47 then Some 47 else if c =? 39 then Some 39 else if c =? 34 then Some 34
   else if c =? 92 then Some 92 else None.
+Definition is_surrogate (r : Z) : bool := (55296 <=? r) && (r <=? 57343).
+(* readSurrogatePair: after a \uXXXX that named the surrogate [hi] *)
+Definition read_surrogate_pair (hi : Z) : M Z :=
+  if 56320 <=? hi then fail else                                     (* a low surrogate first *)
+  tdo _ <- t_expect (fun c => c =? c_bslash);
+  tdo _ <- t_expect (fun c => c =? 117);
+  tdo lo <- read_hex_escape_seq 4 0;
+  if (lo <? 56320) || (57343 <? lo) then fail
+  else ret (65536 + (hi - 55296) * 1024 + (lo - 56320)).
 Definition read_escaped_char (is_clob : bool) : M Z :=
   tdo c <- t_read;
   match simple_escape c with
   | Some r => ret r
   | None =>
-    if c =? 85 then (if is_clob then fail else read_hex_escape_seq 8 0)           (* U *)
-    else if c =? 117 then (if is_clob then fail else read_hex_escape_seq 4 0)     (* u *)
-    else if c =? 120 then read_hex_escape_seq 2 0                                 (* x *)
+    if c =? 85 then                                                                (* U *)
+      if is_clob then fail else
+      tdo r <- read_hex_escape_seq 8 0;
+      (* r < 0 (bit 31 of the int32) || r > MaxRune || surrogate *)
+      if (1114111 <? r) || is_surrogate r then fail else ret r
+    else if c =? 117 then                                                          (* u *)
+      if is_clob then fail else
+      tdo r <- read_hex_escape_seq 4 0;
+      if is_surrogate r then read_surrogate_pair r else ret r
+    else if c =? 120 then read_hex_escape_seq 2 0                                  (* x *)
     else fail
   end.
 (* processBackslashInString / processBackslashInClob: the bytes to append *)
@@ -336,11 +352,20 @@ Fixpoint read_radix_digits (fuel : nat) (valid : Z -> bool) (w : list N) : M (Z 
 Definition read_digits (c : Z) (w : list N) : M (Z * list N) :=
   if negb (is_digit c) then ret (c, w)
   else with_fuel (fun f => read_radix_digits f is_digit (byte_of c :: w)).
+(* readPlainDigits: digits without '_' separators (exponents, fractional seconds) *)
+Fixpoint read_plain_digits_loop (fuel : nat) (c : Z) (w : list N) : M (Z * list N) :=
+  match fuel with
+  | O => nofuel
+  | S f => if is_digit c then tdo c2 <- t_read; read_plain_digits_loop f c2 (byte_of c :: w)
+           else ret (c, w)
+  end.
+Definition read_plain_digits (c : Z) (w : list N) : M (Z * list N) :=
+  with_fuel (fun f => read_plain_digits_loop f c w).
 Definition read_exponent (w : list N) : M (Z * list N) :=
   tdo c <- t_read;
   if (c =? c_plus) || (c =? c_minus) then
-    tdo c2 <- t_read; read_digits c2 (byte_of c :: w)
-  else read_digits c w.
+    tdo c2 <- t_read; read_plain_digits c2 (byte_of c :: w)
+  else read_plain_digits c w.
 
 Inductive numkind := NKInt | NKFloat | NKDecimal.
 (* ReadNumber *)
@@ -441,7 +466,7 @@ Definition read_timestamp : M (list N) :=
   else
   let w := 46%N :: w in
   tdo c <- t_read;
-  tdo '(c, w) <- (if is_digit c then read_digits c w else ret (c, w));
+  tdo '(c, w) <- (if is_digit c then read_plain_digits c w else ret (c, w));
   tdo '(c, w) <- read_timestamp_offset_or_z c w;
   read_timestamp_finish c w.
 
@@ -456,13 +481,17 @@ Fixpoint read_while (fuel : nat) (p : Z -> bool) (w : list N) : M (list N) :=
 Definition read_symbol : M (list N) := with_fuel (fun f => read_while f is_identifier_part []).
 Definition read_operator : M (list N) := with_fuel (fun f => read_while f is_operator_char []).
 
+(* checkUTF8: the text as read from the input must be valid UTF-8 *)
+Definition check_utf8 (v : list N) : M (list N) := if utf8_valid v then ret v else fail.
+
 Fixpoint read_quoted_symbol_loop (fuel : nat) (w : list N) : M (list N) :=
   match fuel with
   | O => nofuel
   | S f =>
     tdo c <- t_read;
-    if (c =? -1) || (c =? c_nl) then fail
-    else if c =? c_quote then ret (rev w)
+    if is_prohibited_control_char c then fail
+    else if (c =? -1) || (c =? c_nl) then fail
+    else if c =? c_quote then check_utf8 (rev w)
     else if c =? c_bslash then
       tdo c2 <- t_peek;
       if c2 =? c_nl then tdo _ <- t_read; read_quoted_symbol_loop f w
@@ -477,7 +506,7 @@ Fixpoint read_string_loop (fuel : nat) (w : list N) : M (list N) :=
   | S f =>
     tdo c <- t_read;
     if (c =? -1) || (c =? c_nl) || is_prohibited_control_char c then fail
-    else if c =? c_dquote then ret (rev w)
+    else if c =? c_dquote then check_utf8 (rev w)
     else if c =? c_bslash then
       tdo bs <- process_backslash false; read_string_loop f (rev bs ++ w)
     else read_string_loop f (byte_of c :: w)
@@ -497,7 +526,8 @@ Fixpoint read_clob_loop (fuel : nat) (w : list N) : M (list N) :=
   end.
 Definition read_clob : M (list N) := with_fuel (fun f => read_clob_loop f []).
 
-Fixpoint read_long_string_loop (fuel : nat) (w : list N) : M (list N) :=
+(* [w]: the finished segments, [seg]: the current ''' segment (ret[segStart:]), both reversed *)
+Fixpoint read_long_string_loop (fuel : nat) (w seg : list N) : M (list N) :=
   match fuel with
   | O => nofuel
   | S f =>
@@ -505,14 +535,18 @@ Fixpoint read_long_string_loop (fuel : nat) (w : list N) : M (list N) :=
     if (c =? -1) || is_prohibited_control_char c then fail
     else if c =? c_quote then
       tdo '(is_end, consumed) <- t_skip_end_of_long_string HSkipComments;
-      if is_end then ret (rev w)
-      else if negb consumed then read_long_string_loop f (byte_of c :: w)
-      else read_long_string_loop f w
+      if consumed then
+        (* the end of a segment: each segment is UTF-8 text by itself *)
+        if negb (utf8_valid (rev seg)) then fail
+        else if is_end then ret (rev (seg ++ w))
+        else read_long_string_loop f (seg ++ w) []
+      else if is_end then ret (rev (seg ++ w))          (* not reachable: the end is always consumed *)
+      else read_long_string_loop f w (byte_of c :: seg)
     else if c =? c_bslash then
-      tdo bs <- process_backslash false; read_long_string_loop f (rev bs ++ w)
-    else read_long_string_loop f (byte_of c :: w)
+      tdo bs <- process_backslash false; read_long_string_loop f w (rev bs ++ seg)
+    else read_long_string_loop f w (byte_of c :: seg)
   end.
-Definition read_long_string : M (list N) := with_fuel (fun f => read_long_string_loop f []).
+Definition read_long_string : M (list N) := with_fuel (fun f => read_long_string_loop f [] []).
 
 Fixpoint read_long_clob_loop (fuel : nat) (w : list N) : M (list N) :=
   match fuel with
